@@ -1116,3 +1116,7 @@ Definition mku (e : list (N * option N)) (r : bool) : umap := {| u_entries := e;
 Definition chk_verdict (i : (list frag * (op * option (list addr))) * op) (o : N) : bool :=
   let '((read_frags, (self, aff)), other) := i in
   N.eqb (verdict_code (fst (check_txn (try_new read_frags self aff) other))) o.
+(* one row of the matrix: the same (read fragments, self, affected rows) against every other operation *)
+Definition chk_verdict_row (i : (list frag * (op * option (list addr))) * list op) (o : list N) : bool :=
+  let '(s, others) := i in
+  list_eqb N.eqb (map (fun other => verdict_code (fst (check_txn (try_new (fst s) (fst (snd s)) (snd (snd s))) other))) others) o.
